@@ -306,3 +306,119 @@ Lemma s_delta_add_remove_refuted : ∃ ops,
 Proof.
   exists [SAdd 1 1; SRem 1; SShip]. vm_compute. discriminate.
 Qed.
+
+(* ------------------------------------------------------------------ registers, flag, map: a delta IS the full state *)
+From GV Require Import C38.Proofs2.
+
+Lemma delta_is_full_state_after_local_op :
+  (∀ r v ts n, l_deltaOf (l_set r v ts n) = Some (l_set r v ts n)) ∧
+  (∀ r n v, mv_deltaOf (mv_set r n v) = Some (mv_set r n v)) ∧
+  (∀ x, f_enabled x = false → f_deltaOf (f_enable x) = Some (f_enable x)) ∧
+  (∀ (V : Type) (vm : V → V → V) (m : ormap V) n k v, m_deltaOf (m_set vm m n k v) = Some (m_set vm m n k v)) ∧
+  (∀ (V : Type) (m : ormap V) k, s_contains (m_keys m) k = true → m_deltaOf (m_remove m k) = Some (m_remove m k)).
+Proof.
+  repeat split; try reflexivity.
+  - intros x Hx. unfold f_enable. rewrite Hx. reflexivity.
+  - intros V m k Hk. unfold m_remove. rewrite Hk. reflexivity.
+Qed.
+
+(* MVRegister: any family of states of a replica system (each replica its own node id), merged in any
+   order with any duplication, gives the same entries and clock. *)
+Definition mvcore : Type := gmap (N * N) N * gmap N N.
+Definition mvc_of (r : mvreg) : mvcore := (mv_entries r, mv_clock r).
+Definition mvc_merge (a b : mvcore) : mvcore := (mv_merge_entries a.1 a.2 b.1 b.2, cmax a.2 b.2).
+
+Section mv_family.
+  Context (F : list mvreg).
+  Context (F_wf : ∀ s, s ∈ F → mv_wf s) (F_coh : ∀ s t, s ∈ F → t ∈ F → mv_coh s t).
+  (* the merge-closed class generated by the family: positive clock, entries drawn from the family *)
+  Definition mvU (c : mvcore) : Prop :=
+    clock_pos c.2 ∧ ∀ d v, c.1 !! d = Some v → ∃ t, t ∈ F ∧ mv_entries t !! d = Some v.
+
+  Lemma mvU_coh a b : mvU a → mvU b → coh a.1 b.1.
+  Proof.
+    intros [_ Ha] [_ Hb] d v w Hv Hw. destruct (Ha _ _ Hv) as (s & Hs & Es). destruct (Hb _ _ Hw) as (t & Ht & Et).
+    eapply (F_coh s t Hs Ht); eauto.
+  Qed.
+  Lemma mvU_merge a b : mvU a → mvU b → mvU (mvc_merge a b).
+  Proof.
+    intros Ha Hb. split; [apply clock_pos_cmax; [apply Ha|apply Hb]|].
+    intros d v Hv. simpl in Hv. apply mv_merge_entries_sub in Hv as [Hv|Hv]; [apply Ha|apply Hb]; exact Hv.
+  Qed.
+  Lemma mvc_comm a b : mvU a → mvU b → mvc_merge a b = mvc_merge b a.
+  Proof.
+    intros Ha Hb. unfold mvc_merge. f_equal; [|apply cmax_comm].
+    apply mv_set_of_inj. rewrite !mv_merge_entries_set by (auto using mvU_coh). apply s_merge_entries_comm.
+  Qed.
+  Lemma mvc_assoc a b c : mvU a → mvU b → mvU c → mvc_merge (mvc_merge a b) c = mvc_merge a (mvc_merge b c).
+  Proof.
+    intros Ha Hb Hc. unfold mvc_merge; simpl. f_equal; [|apply cmax_assoc].
+    apply mv_set_of_inj.
+    rewrite (mv_merge_entries_set (mv_merge_entries a.1 a.2 b.1 b.2)) by (apply (mvU_coh (mvc_merge a b) c); auto using mvU_merge).
+    rewrite (mv_merge_entries_set a.1 a.2 (mv_merge_entries b.1 b.2 c.1 c.2)) by (apply (mvU_coh a (mvc_merge b c)); auto using mvU_merge).
+    rewrite !mv_merge_entries_set by (auto using mvU_coh). apply s_merge_entries_assoc.
+  Qed.
+  Lemma mvc_idem a : mvU a → mvc_merge a a = a.
+  Proof.
+    intros Ha. destruct a as [e c]. unfold mvc_merge; simpl. f_equal; [|apply cmax_idem].
+    apply mv_set_of_inj. rewrite mv_merge_entries_set by apply coh_refl. apply s_merge_entries_idem.
+  Qed.
+  Lemma mvU_of s : s ∈ F → mvU (mvc_of s).
+  Proof. intros Hs. split; [apply F_wf, Hs|]. intros d v Hv. exists s. auto. Qed.
+
+  Theorem mv_family_converges x l1 l2 :
+    mvU x → (∀ y, y ∈ l1 → mvU y) → (∀ y, y ∈ l2 → mvU y) → (∀ y, y ∈ l1 ↔ y ∈ l2) →
+    joinl mvc_merge x l1 = joinl mvc_merge x l2.
+  Proof.
+    intros Hx H1 H2 Hs. apply (joinl_same_set mvc_merge mvU mvU_merge mvc_comm mvc_assoc mvc_idem); try assumption.
+    - apply Forall_forall; exact H1.
+    - apply Forall_forall; exact H2.
+  Qed.
+End mv_family.
+
+(* the model's fold over real MVRegister values is the fold over cores *)
+Lemma mv_joinl_core (x : mvreg) (l : list mvreg) :
+  Forall mv_wf l → mvc_of (joinl mv_merge x l) = joinl mvc_merge (mvc_of x) (mvc_of <$> l).
+Proof.
+  intros Hl. revert x. induction Hl as [|y l Hy Hl IH]; intros x; [reflexivity|].
+  unfold joinl in *; simpl. rewrite IH. rewrite (mv_merge_eq x y Hy). reflexivity.
+Qed.
+
+(* LWWRegister cores of a coherent family *)
+Definition lcore : Type := N * Z * N.
+Definition lc_wins (o r : lcore) : bool := (r.1.2 <? o.1.2)%Z || ((o.1.2 =? r.1.2)%Z && (r.2 <? o.2)%N).
+Definition lc_merge (r o : lcore) : lcore := if lc_wins o r then o else r.
+Lemma l_core_merge r o : l_core (l_merge r o) = lc_merge (l_core r) (l_core o).
+Proof. rewrite l_merge_core. reflexivity. Qed.
+
+Section l_family.
+  Context (F : list lww) (F_coh : ∀ s t, s ∈ F → t ∈ F → l_coh s t).
+  Definition lU (c : lcore) : Prop := ∃ s, s ∈ F ∧ c = l_core s.
+  Lemma lU_merge a b : lU a → lU b → lU (lc_merge a b).
+  Proof. intros Ha Hb. unfold lc_merge. destruct (lc_wins b a); assumption. Qed.
+  Lemma lc_comm a b : lU a → lU b → lc_merge a b = lc_merge b a.
+  Proof.
+    intros (s & Hs & ->) (t & Ht & ->). rewrite <- !l_core_merge. apply l_merge_comm. apply F_coh; assumption.
+  Qed.
+  Lemma lc_assoc a b c : lU a → lU b → lU c → lc_merge (lc_merge a b) c = lc_merge a (lc_merge b c).
+  Proof.
+    intros (s & Hs & ->) (t & Ht & ->) (u & Hu & ->). rewrite <- !l_core_merge. apply l_merge_assoc; apply F_coh; assumption.
+  Qed.
+  Lemma lc_idem a : lU a → lc_merge a a = a.
+  Proof. intros (s & Hs & ->). rewrite <- l_core_merge. apply l_merge_idem. Qed.
+
+  Theorem l_family_converges x l1 l2 :
+    lU x → (∀ y, y ∈ l1 → lU y) → (∀ y, y ∈ l2 → lU y) → (∀ y, y ∈ l1 ↔ y ∈ l2) →
+    joinl lc_merge x l1 = joinl lc_merge x l2.
+  Proof.
+    intros Hx H1 H2 Hs. apply (joinl_same_set lc_merge lU lU_merge lc_comm lc_assoc lc_idem); try assumption.
+    - apply Forall_forall; exact H1.
+    - apply Forall_forall; exact H2.
+  Qed.
+End l_family.
+
+(* ORMap: receivers of the same three full states in two orders expose different values *)
+From GV Require Import C38.Exec C38.Proofs3.
+Lemma ormap_order_refuted :
+  value1 (joinl merge1 m_new [w_a; w_b; w_c]) ≠ value1 (joinl merge1 m_new [w_b; w_c; w_a]).
+Proof. vm_compute. discriminate. Qed.
